@@ -57,11 +57,11 @@ theorem files_step {s s' : Sys} {ev : Ev} (inv : InvS s) (hs : step s ev = some 
     · exact same rfl
     · left
       by_cases hj : k = e.slot
-      · subst hj; rw [hf] at hb; cases hb; exact ⟨{ b with pack := LoadSt.loaded }, by simp, rfl⟩
+      · subst hj; rw [hf] at hb; cases hb; exact ⟨b.setPackAt e.pk LoadSt.loaded, by simp, by simp⟩
       · exact ⟨b, by simpa [hj] using hb, rfl⟩
     · left
       by_cases hj : k = e.slot
-      · subst hj; rw [hf] at hb; cases hb; exact ⟨{ b with pack := LoadSt.missing }, by simp, rfl⟩
+      · subst hj; rw [hf] at hb; cases hb; exact ⟨b.setPackAt e.pk LoadSt.missing, by simp, by simp⟩
       · exact ⟨b, by simpa [hj] using hb, rfl⟩
   | loadIdx k' gIx =>
     obtain ⟨_, _, rfl | ⟨b0, st, _, hf, _, rfl⟩⟩ := inv_loadIdx hs
@@ -79,6 +79,16 @@ theorem files_step {s s' : Sys} {ev : Ev} (inv : InvS s) (hs : step s ev = some 
       · exact ⟨b, by simpa [hj] using hb, rfl⟩
   | consSetFiles k' file multi =>
     obtain ⟨c, hc, hpub, hpend, rfl⟩ := inv_consSetFiles hs
+    by_cases hj : k = k'
+    · subst hj
+      right
+      rcases inv.pend c k hc hpend hpub with h | h
+      · rw [hb] at h; cases h
+      · have hG := (inv.consG c hc).1 hpub
+        simp; omega
+    · left; exact ⟨b, by simpa [hj] using hb, rfl⟩
+  | consSetFilesM k' file extra =>
+    obtain ⟨c, hc, hpub, hpend, rfl⟩ := inv_consSetFilesM hs
     by_cases hj : k = k'
     · subst hj
       right
@@ -176,6 +186,9 @@ theorem safe_step {s s' : Sys} {ev : Ev} (inv : InvS s) (hs : step s ev = some s
     · exact upd c hc ⟨_, rfl, rfl, rfl, rfl⟩ rfl rfl
   | consSetFiles k' file multi =>
     obtain ⟨c, hc, hpub, hpend, rfl⟩ := inv_consSetFiles hs
+    exact upd c hc ⟨_, rfl, rfl, rfl, rfl⟩ rfl rfl
+  | consSetFilesM k' file extra =>
+    obtain ⟨c, hc, hpub, hpend, rfl⟩ := inv_consSetFilesM hs
     exact upd c hc ⟨_, rfl, rfl, rfl, rfl⟩ rfl rfl
   | consPutBack k' =>
     obtain ⟨c, b0, hc, hpub, hpend, hf, hd, rfl⟩ := inv_consPutBack hs
